@@ -1743,10 +1743,6 @@ class LeCreditBasedChannel(utils.EventEmitter):
         self.flush_output()
 
     def on_pdu(self, pdu: bytes) -> None:
-        if self.sink is None:
-            logger.warning('received pdu without a sink')
-            return
-
         if self.state != self.State.CONNECTED:
             logger.warning('received PDU while not connected, dropping')
 
@@ -1765,6 +1761,11 @@ class LeCreditBasedChannel(utils.EventEmitter):
                     )
                 )
                 self.peer_credits = self.peer_max_credits
+
+        if self.sink is None:
+            # The frame has been accounted for, but there's nowhere to deliver it
+            logger.warning('received pdu without a sink')
+            return
 
         # Check if this starts a new SDU
         if self.in_sdu is None:
